@@ -39,6 +39,8 @@ use std::collections::{BTreeMap, HashMap};
 /// ```                      V W X
 pub static UNICODE_FRAGMENTS: Lazy<BTreeMap<char, Vec<Fragment>>> =
     Lazy::new(|| {
+        #[cfg(feature = "verif-trace")]
+        let _verif_guard = crate::verif::LazyGuard::new("UNICODE_FRAGMENTS");
         let a = CellGrid::a();
         let b = CellGrid::b();
         let c = CellGrid::c();
@@ -366,6 +368,8 @@ pub static UNICODE_FRAGMENTS: Lazy<BTreeMap<char, Vec<Fragment>>> =
 /// the reverse of shape to character lookup
 pub static FRAGMENTS_UNICODE: Lazy<BTreeMap<&'static Vec<Fragment>, char>> =
     Lazy::new(|| {
+        #[cfg(feature = "verif-trace")]
+        let _verif_guard = crate::verif::LazyGuard::new("FRAGMENTS_UNICODE");
         UNICODE_FRAGMENTS.iter().fold(
             BTreeMap::new(),
             |mut acc, (ch, shapes)| {
@@ -377,6 +381,8 @@ pub static FRAGMENTS_UNICODE: Lazy<BTreeMap<&'static Vec<Fragment>, char>> =
 
 pub static UNICODE_PROPERTIES: Lazy<HashMap<char, Property>> =
     Lazy::new(|| {
+        #[cfg(feature = "verif-trace")]
+        let _verif_guard = crate::verif::LazyGuard::new("UNICODE_PROPERTIES");
         UNICODE_FRAGMENTS
             .iter()
             .fold(HashMap::new(), |mut acc, (ch, frags)| {
